@@ -1,5 +1,5 @@
 import PyYetiVerif.Props.C12
-import PyYetiVerif.Lemmas.NasFloatBest
+import PyYetiVerif.Lemmas.NasFloatBestChain
 /-!
 # C12, extension — "best precision": the emitted field against every other string of the grammar
 
@@ -83,6 +83,47 @@ theorem last_branches_best_precision (W : Nat) (c : Sci) (hW : 3 ≤ W) (x : Dbl
     rw [hdec, hrabs] at hshape
     refine ⟨_, hshape, fun g hwf hlen => ?_⟩
     exact int_best W (W - 2) true (by simp; omega) (by omega) x hd hneg hlo [] (Or.inl rfl) g hwf hlen
+
+/-! ## best precision over the dispatch -/
+
+/-- the decidable side conditions of the dispatch-level statement hold for the tables extracted
+from the source: the lower bound every fixed-notation row inherits from the failed test before it
+is its own decade (`10^(k-1)`, `10^-3` at least for the row below one), and the bound that reaches
+the final `else` is `10^(W-2)` resp. `10^(W-3)`. -/
+theorem tables_best_ok : BestOK 8 pos8 neg8 ∧ BestOK 16 pos16 neg16 := by decide
+
+/-- **`format_float_best_precision`** — over the if-chain dispatch, where the statement is clean.
+For every non-zero fraction `x`: whenever `format_float8` / `format_float16` takes a
+fixed-notation branch (`branchKind = 2, 3`) or its final `else` with `|x| < 10^(W-1)`
+(`branchKind = 4`: the integers `dddddddd.` / `-ddddddd.`) — that is for
+`10^-3 ≤ x < 10^(W-1) − ½` and `10^-2 ≤ −x < 10^(W-2) − ½` — the field returned is a **nearest**
+field: no well-formed field of the grammar of at most `W` characters, of either sign, in fixed or
+scientific notation, normalised or not, denotes a decimal closer to `x`.  (In the scientific and
+mixed branches the statement carries a slack and a restriction on the competitors:
+`sci_best_precision`, `sci_slack_attained`, `unnormalised_mantissa_is_closer`.) -/
+theorem format_float_best_precision (x : Dbl) (hn : 0 < x.num) (hd : 0 < x.den) :
+    ((branchKind pos8 neg8 x = 2 ∨ branchKind pos8 neg8 x = 3 ∨
+        (branchKind pos8 neg8 x = 4 ∧ (x.neg = false → x.num < 10 ^ (8 - 1) * x.den))) →
+      ∃ f : Fld, f.wf = true ∧ formatFloat8 x = rjust 8 f.text ∧
+        ∀ g : Fld, g.wf = true → g.text.length ≤ 8 → |decRat f.dec - dblRat x| ≤ |decRat g.dec - dblRat x|) ∧
+    ((branchKind pos16 neg16 x = 2 ∨ branchKind pos16 neg16 x = 3 ∨
+        (branchKind pos16 neg16 x = 4 ∧ (x.neg = false → x.num < 10 ^ (16 - 1) * x.den))) →
+      ∃ f : Fld, f.wf = true ∧ formatFloat16 x = rjust 16 f.text ∧
+        ∀ g : Fld, g.wf = true → g.text.length ≤ 16 → |decRat f.dec - dblRat x| ≤ |decRat g.dec - dblRat x|) := by
+  obtain ⟨h8, h16⟩ := tables_format_ok
+  obtain ⟨b8, b16⟩ := tables_best_ok
+  exact ⟨fun hk => formatFloat_best 8 sci8 pos8 neg8 posLast8 negLast8 (by norm_num) h8 b8 x hn hd hk,
+    fun hk => formatFloat_best 16 sci16 pos16 neg16 posLast16 negLast16 (by norm_num) h16 b16 x hn hd hk⟩
+
+/-- non-vacuity: which branch is taken — `1.5` and `-0.5` fixed notation, `1234567.4` and
+`-123456.4` the final integers, `1e-5` the mixed branch, `1e20` scientific (final `else`, but not
+below `10^7`). -/
+example : branchKind pos8 neg8 ⟨false, 3, 2⟩ = 2 ∧ branchKind pos8 neg8 ⟨true, 1, 2⟩ = 3 ∧
+    branchKind pos8 neg8 ⟨false, 12345674, 10⟩ = 4 ∧ branchKind pos8 neg8 ⟨true, 1234564, 10⟩ = 4 ∧
+    branchKind pos8 neg8 ⟨false, 1, 100000⟩ = 1 ∧ branchKind pos8 neg8 ⟨false, 10 ^ 20, 1⟩ = 4 ∧
+    ¬ ((10 : Nat) ^ 20 < 10 ^ (8 - 1) * 1) := by
+  refine ⟨by decide +kernel, by decide +kernel, by decide +kernel, by decide +kernel, by decide +kernel,
+    by decide +kernel, by decide⟩
 
 /-- **scientific branches emit a nearest field up to the slack of the two-stage rounding.**  For
 constants satisfying `SciOK`, every fraction `x` with `10^-999 ≤ |x| < 10^999` whose printed
